@@ -1,6 +1,10 @@
 """Shared parts of the registry checks C13 / C14 / C20 (SymbolGraph.tla)."""
+import json
+import os
 import random
-from harness.core import MachineryError, replay, validate_traces
+import subprocess
+import tempfile
+from harness.core import MachineryError, replay, validate_traces, REPO, PY, VERIF, krrood_env
 
 H1 = ("add_node", "remove_node", "add_relation", "clear")
 
@@ -87,3 +91,24 @@ def judge_audit(h, r):
         if pr:
             out.append({"audit_query": qcls, "observed": o, "problems": pr})
     return out
+
+
+def suite_traces(ctx, tests):
+    """Run (a part of) the repository's own test suite with the H1 hooks on and validate the registry events of every
+    SymbolGraph object it creates against SymbolGraph_Trace.tla. Returns {trace name: (verdict, tests)}."""
+    fd, out = tempfile.mkstemp(prefix="suite_traces_", suffix=".ndjson")
+    os.close(fd)
+    env = krrood_env({"VERIF_TRACE_OUT": out})
+    cmd = [PY, "-m", "pytest", "-q", "-p", "no:cacheprovider", "-p", "harness.pytest_trace", "--timeout=900"] + tests
+    p = subprocess.run(cmd, cwd=str(REPO), env=env, capture_output=True, text=True, timeout=1800)
+    try:
+        traces = [json.loads(l) for l in open(out)]
+    finally:
+        os.unlink(out)
+    if not traces:
+        raise MachineryError("the repository's tests produced no registry trace:\n" + p.stdout[-1500:])
+    v = validate_traces(ctx, "SymbolGraph_Trace", "SymbolGraph_Trace_intended.cfg", [{"name": t["name"], "ev": t["ev"]} for t in traces])
+    ctx.traces += len(traces)
+    ctx.cov["repository_test_traces"] = {"graphs": len(traces), "events": sum(len(t["ev"]) for t in traces),
+                                         "pytest_tail": p.stdout.strip().splitlines()[-1][:120] if p.stdout.strip() else ""}
+    return {t["name"]: (v[t["name"]], t["tests"]) for t in traces if t["ev"]}
